@@ -42,6 +42,33 @@ pub fn with_variants(rng: &mut Rng, n: usize, maxlen: usize) -> Vec<(Vec<u8>, bo
     v
 }
 
+/// records whose A..A column is a ratio c/t sitting just beside a 6-decimal rounding boundary (the remainder of c*10^6/t is
+/// within 1/t of one half, but not a tie): a quotient computed with less than double precision prints a different last digit.
+/// A^(c+k-1) C^(t-c) has t windows of which exactly c are A..A (its own canonical form, T..T does not occur).
+pub fn ratio_records(rng: &mut Rng, k: usize, want: usize) -> Vec<Vec<u8>> {
+    let mut pairs: Vec<(u64, u64)> = Vec::new();
+    for t in 40..700u64 {
+        for c in 30..t {
+            let r = (c * 1_000_000) % t;
+            let d = if 2 * r > t { 2 * r - t } else { t - 2 * r };
+            if d > 0 && d <= 2 {
+                pairs.push((c, t));
+            }
+        }
+    }
+    let mut out = Vec::new();
+    for _ in 0..want.min(pairs.len()) {
+        let (c, t) = pairs[rng.below(pairs.len() as u64) as usize];
+        let mut s = vec![b'A'; c as usize + k - 1];
+        s.extend(std::iter::repeat(b'C').take((t - c) as usize));
+        if rng.below(2) == 0 {
+            s = rc_bytes(&s);
+        }
+        out.push(s);
+    }
+    out
+}
+
 /// trace oligo <seed> <n> <maxlen> <dir>: library file API, k = 1..8, raw (batch writer) and normalised (mmap writer)
 pub fn oligo(seed: u64, n: usize, maxlen: usize, dir: &str) {
     let mut rng = Rng::new(seed);
@@ -51,6 +78,9 @@ pub fn oligo(seed: u64, n: usize, maxlen: usize, dir: &str) {
         if k <= 3 {
             let big: Vec<u8> = (0..40_000).map(|x| if x % 9973 == 5 { b'N' } else { *rng.pick(b"ACGTacgtu") }).collect();
             recs.push((big, false));
+        }
+        for s in ratio_records(&mut rng, k, 12) {
+            recs.push((s, false));
         }
         // exact repeats of earlier records (adjacent and far apart) and several records too short for any k-mer:
         // anything that caches or shares per-sequence work between workers must still give every record its own row
@@ -84,6 +114,57 @@ pub fn oligo(seed: u64, n: usize, maxlen: usize, dir: &str) {
         }
         let _ = std::fs::remove_file(&inp);
     }
+    println!("{}", json!({"ev":"eof"}));
+}
+
+/// trace oligobig <seed> <scale> <dir>: records given by run lengths (millions of bases; scale 1 = a record with more than
+/// 2^24 windows), judged from the runs alone (RunLength.tla). One raw run through the batch writer, one normalised
+/// run through the memory-mapped writer, per k.
+pub fn oligo_big(seed: u64, scale: u64, dir: &str) {
+    let mut rng = Rng::new(seed);
+    let m = 1_000_000u64;
+    let plans: Vec<Vec<(u8, u64)>> = vec![
+        // more than 2^24 = 16 777 216 windows in one record; one k-mer far beyond 2^16 and 2^23 occurrences
+        vec![(0, 9 * m * scale + rng.below(1000)), (1, 5 * m + rng.below(1000)), (4, 8 + rng.below(5)), (2, 2 * m + 900_000 + rng.below(1000)), (3, 70_000 + rng.below(1000)), (0, 8)],
+        // a little more than 2^16 letters, and a second record after it
+        vec![(3, 40_000 + rng.below(100)), (1, 25_600 + rng.below(100)), (2, 9 + rng.below(30))],
+        vec![(1, 8), (0, 8 + rng.below(4)), (4, 8), (2, 11)],
+    ];
+    let seqs: Vec<Vec<u8>> = plans
+        .iter()
+        .map(|p| {
+            let mut s = Vec::new();
+            for &(c, n) in p {
+                for _ in 0..n {
+                    s.push(render_class(c, &mut rng, true));
+                }
+            }
+            s
+        })
+        .collect();
+    let inp = format!("{}/tr_obig.fa", dir);
+    write_fasta(&inp, &seqs);
+    for k in [1usize, 2, 3, 5, 8] {
+        for norm in [false, true] {
+            let out = format!("{}/tr_obig_{}_{}.out", dir, k, norm);
+            let path = if norm { WPath::Mmap } else { WPath::Batch };
+            run_oligo(&inp, &out, k, norm, path, 1 + rng.below(4) as usize, " ", false, None).unwrap();
+            let lines = lines_of(&out);
+            for (i, p) in plans.iter().enumerate() {
+                let (row, n) = match lines.get(i) {
+                    Some(l) => sparse_row(l, " ", norm),
+                    None => (vec![-1, -1], 0),
+                };
+                let rle: Vec<Vec<u64>> = p.iter().map(|&(c, n)| vec![c as u64, n]).collect();
+                println!("{}", json!({"ev":"obig","src":"lib","k":k,"norm": if norm {1} else {0},"rle":rle,"ncols":n,"row":row}));
+            }
+            if lines.len() != plans.len() {
+                println!("{}", json!({"ev":"rowcount","rows":lines.len(),"records":plans.len()}));
+            }
+            let _ = std::fs::remove_file(&out);
+        }
+    }
+    let _ = std::fs::remove_file(&inp);
     println!("{}", json!({"ev":"eof"}));
 }
 
@@ -288,12 +369,15 @@ pub fn ocgr(seed: u64, n: usize, maxlen: usize, dir: &str) {
             let bigrun = k == 2 && !norm;
             let n = if bigrun { 400 } else { n };
             let maxlen = if bigrun { 20 } else { maxlen };
-            let seqs: Vec<Vec<u8>> = (0..n)
+            let mut seqs: Vec<Vec<u8>> = (0..n)
                 .map(|i| {
                     let len = if i % 6 == 0 { rng.below(k as u64 + 2) as usize } else { rng.range(0, maxlen as u64) as usize };
                     gen_seq(&mut rng, len, false)
                 })
                 .collect();
+            if norm {
+                seqs.extend(ratio_records(&mut rng, k, 8));
+            }
             let inp = format!("{}/tr_ocgr_{}.fa", dir, k);
             let out = format!("{}/tr_ocgr_{}.out", dir, k);
             write_fasta(&inp, &seqs);
@@ -311,13 +395,16 @@ pub fn ocgr(seed: u64, n: usize, maxlen: usize, dir: &str) {
 }
 
 /// gen fasta <seed> <n> <maxlen> <path> [clean]: a FASTA file of generated records (with invariance variants unless clean)
-pub fn gen_fasta(seed: u64, n: usize, maxlen: usize, path: &str, clean: bool) {
+pub fn gen_fasta(seed: u64, n: usize, maxlen: usize, path: &str, clean: bool, ratio_k: usize) {
     let mut rng = Rng::new(seed);
-    let seqs: Vec<Vec<u8>> = if clean {
+    let mut seqs: Vec<Vec<u8>> = if clean {
         (0..n).map(|i| gen_cgr_seq(&mut rng, i * 4, maxlen)).collect()
     } else {
         with_variants(&mut rng, n, maxlen).into_iter().map(|r| r.0).collect()
     };
+    if ratio_k > 0 {
+        seqs.extend(ratio_records(&mut rng, ratio_k, 12));
+    }
     write_fasta(path, &seqs);
 }
 
